@@ -9,8 +9,9 @@ PER_BATCH = {'quick': 360, 'thorough': 9000}
 FLOORS = {
     'quick': {'distinct_nontrivial': 2500, 'python-texts-judged': 2500, 'token-streams-judged': 2500, 'feature:multi-level-dedent': 400,
               'feature:bracketed-newline': 1500, 'feature:tabs': 1200, 'feature:blank-or-comment-line': 2500, 'feature:DedentError': 600,
-              'feature:>=3-levels': 1500, 'stream-sequences-judged': 1500, 'feature:after-failed-stream': 300, 'feature:after-abandoned-stream': 300,
-              'class:no-final-newline-tail': 300, 'class:indented-first-line': 300, 'contract:balanced-at-end': 5000},
+              'feature:>=3-levels': 1000, 'stream-sequences-judged': 1500, 'feature:after-failed-stream': 300, 'feature:after-abandoned-stream': 300,
+              'class:no-final-newline-tail': 200, 'class:indented-first-line': 200, 'contract:balanced-at-end': 5000,
+              'feature:empty-valued-last-token-before-closing-dedents': 30},
     'thorough-unused': {'distinct_nontrivial': 50000, 'python-texts-judged': 100000},
 }
 RULE = ("(a) python-like texts (indent widths 1-12 in spaces and tabs, blank and comment lines at arbitrary indentation, bracketed "
@@ -245,10 +246,11 @@ def gen_stream(rng):
     out = []
     depth = 0
     levels = [0]
-    for _ in range(rng.randint(1, 25)):
+    for _ in range(rng.randint(0, 25)):
         r = rng.random()
         if r < 0.4:
-            out.append(('WORD', 'w'))
+            # "any token stream": values rewritten by lexer callbacks can be empty or look like something else
+            out.append(('WORD', rng.choice(['w', 'w', 'w', 'w', '', '', '\n  ', '('])))
         elif r < 0.75:
             # newline token: several newlines, indentation of the last line counts
             if rng.random() < 0.6 and depth == 0:
@@ -341,6 +343,8 @@ def judge_stream(ctx, rng):
         feats.append('tabs')
     if exp[1]:
         feats.append('DedentError')
+    if stream and stream[-1][1] == '' and not exp[1] and exp[0] and exp[0][-1][0] == 'DED':
+        feats.append('empty-valued-last-token-before-closing-dedents')
     ctx.judged(['stream', tab_len, stream], n_ind >= 2, feats)
     ctx.count('token-streams-judged')
     case = {'kind': 'stream', 'tab_len': tab_len, 'stream': stream}
